@@ -7,6 +7,7 @@ Proofs: Proofs/EvalOrder.
 -/
 import EvalexprVerif.Proofs.EvalOrder
 import EvalexprVerif.Proofs.AgreeEvalArms
+import EvalexprVerif.Proofs.AgreeFnTree
 
 namespace Evalexpr.Spec.C11
 open Evalexpr Evalexpr.Spec
@@ -27,6 +28,15 @@ theorem C11_nostorage_ctx (n : Node) (s : St) (h : HashMapCtx) (hs : s.ctx = .no
 theorem C11_nostorage_assign (op : Operator) (args : List Value) (s : St) (h : HashMapCtx)
     (hop : Operator.isAssignKind op = true) (hs : s.ctx = .noStorage h) :
     ∃ e, (op.evalMut args s).1 = .error e := Evalexpr.Spec.C11_nostorage_assign op args s h hop hs
+
+/-- **C11 about the code as translated on this run**: the rendered `Node::eval_with_context` returns the projection of the
+rendered `Node::eval_with_context_mut` stopped at the first applied assignment, and leaves the context unchanged -/
+theorem C11_project_generated (n : Node) (s : St) :
+    Gen.Node.eval_with_context n s = projectStop (evalStop n s) ∧ (Gen.Node.eval_with_context n s).2.ctx = s.ctx := by
+  rw [AgreeFn.fn_Node_eval_with_context_agree]; exact ⟨C11_project n s, C11_readonly n s⟩
+theorem C11_agree_generated (n : Node) (s : St) (h : noAssign n = true) :
+    Gen.Node.eval_with_context n s = Gen.Node.eval_with_context_mut n s := by
+  rw [AgreeFn.fn_Node_eval_with_context_agree, AgreeFn.fn_Node_eval_with_context_mut_agree]; exact C11_agree n s h
 
 /-- an error before the assignment is reported, not ContextNotMutable: `zz + (a = 1)` -/
 example : ((Node.mk .add [⟨.varRead ['z'], []⟩, ⟨.assign, [⟨.varWrite ['a'], []⟩, ⟨.const (.int 1), []⟩]⟩]).evalRO
